@@ -15,7 +15,7 @@ pub fn def() -> PropDef {
         streams,
         run,
         floors,
-        rule: "exhaustive: every one of the 65536 flag words over a body consistent with its T/L/S/O bits, decoded under all 8 option sets and try_read. With R[o] the result under option set o: R[o] must be Err if o trips (version check and nibble != 2; reserved check and a reserved bit; unused check and control with P or O), otherwise R[o] must equal R[no checks] (same Ok value, or both Err). try_read must equal try_read_validate({version}) exactly, errors included. Bit-independence: with a check off, flipping the bits it guards must not change the result. Plus hostile inputs. Distinct = distinct inputs; non-trivial = R[no checks] is Ok (so every option set has something to restrict).",
+        rule: "exhaustive: every one of the 65536 flag words over a body consistent with its T/L/S/O bits, decoded under all 8 option sets and try_read. With R[o] the result under option set o: R[o] must be Err if o trips (version check and nibble != 2; reserved check and a reserved bit; unused check and control with P or O), otherwise R[o] must equal R[no checks] (same Ok value, or both Err). try_read must equal try_read_validate({version}) exactly, errors included. Bit-independence: with a check off, flipping the bits it guards must not change the result. Plus hostile inputs. Distinct = distinct inputs; non-trivial = R[no checks] is Ok (so every option set has something to restrict). Also: the same (input, options) pairs decoded concurrently from 8 threads with differing options must give the single-thread results.",
     }
 }
 
